@@ -508,6 +508,26 @@ def expand_conditional_statements(modules):
     return count
 
 
+def strip_annotations(modules):
+    """An annotated assignment `x: T = v` is analysed as `x = v`; a bare declaration `x: T` as `pass`.  Returns the number of rewritten statements."""
+    count = 0
+    for mod in modules.values():
+        for st in ast.walk(mod.tree):
+            if not isinstance(st, ast.AnnAssign):
+                continue
+            pos = {k: getattr(st, k) for k in ('lineno', 'col_offset', 'end_lineno', 'end_col_offset') if hasattr(st, k)}
+            tgt, val = st.target, st.value
+            st.__dict__.clear()
+            if val is None:
+                st.__class__ = ast.Pass
+                st.__dict__.update(pos)
+            else:
+                st.__class__ = ast.Assign
+                st.__dict__.update(dict(targets=[tgt], value=val, type_comment=None, **pos))
+            count += 1
+    return count
+
+
 class Module:
     def __init__(self, name, path, relpath, src):
         self.name = name
@@ -710,6 +730,7 @@ class Program:
         for m in MANDATORY_MODULES:
             if f'{self.package}.{m}' not in self.modules:
                 raise AnalysisError(f'mandatory module {self.package}.{m} is missing')
+        self.annotations_stripped = strip_annotations(self.modules)
         self.suppress_desugared = desugar_suppress(self.modules)
         self.updates_normalised = normalise_updates(self.modules)
         self.comparisons_normalised = normalise_comparisons(self.modules)
